@@ -95,6 +95,9 @@ def run_op(op, args):
         return args[0].refines(args[1])
     if op == "rename":
         return args[0].rename_variables([tuple(m) for m in args[1]])
+    if op == "rename_one":
+        from pacti.iocontract import Var
+        return args[0].rename_variable(Var(args[1]), Var(args[2]))
     if op == "copy":
         return args[0].copy()
     if op == "elim_refine":
